@@ -32,6 +32,35 @@ MUTS = {
  'xi-saved-2ch': ('C11', 'src/synchro.rs', [("        if self.saved_frames > frames_in_used {\n            for (chan, active) in self.channel_mask.iter().enumerate() {", "        if self.saved_frames > frames_in_used {\n            for (chan, active) in self.channel_mask.iter().enumerate().take(2) {")], 'FftFixedIn moves the saved frames of the first two channels only'),
  'window-swap': ('C02', 'src/windows.rs', [("        WindowFunction::BlackmanHarris | WindowFunction::BlackmanHarris2 => {\n            blackman_harris::<T>(npoints)\n        }\n        WindowFunction::Blackman | WindowFunction::Blackman2 => blackman::<T>(npoints),", "        WindowFunction::BlackmanHarris => blackman_harris::<T>(npoints),\n        WindowFunction::Blackman | WindowFunction::Blackman2 | WindowFunction::BlackmanHarris2 => {\n            blackman::<T>(npoints)\n        }")], 'BlackmanHarris2 is built from the Blackman window'),
  'sse-subclamp': ('C15', 'src/sinc_interpolator/sinc_interpolator_sse.rs', [], ''),
+ 'unsafe-base': ('C03', 'src/asynchro_fast.rs', [("""                                let buf = self.buffer.get_unchecked(chan).get_unchecked(
+                                    (start_idx + 2 * POLYNOMIAL_LEN_I) as usize
+                                        ..(start_idx + 2 * POLYNOMIAL_LEN_I + 2) as usize,
+                                );
+                                *wave_out
+                                    .get_unchecked_mut(chan)
+                                    .as_mut()
+                                    .get_unchecked_mut(frame) = interp_lin(frac_offset, buf);""", """                                let buf = self.buffer.get_unchecked(chan).get_unchecked(
+                                    (start_idx + POLYNOMIAL_LEN_I) as usize
+                                        ..(start_idx + POLYNOMIAL_LEN_I + 2) as usize,
+                                );
+                                *wave_out
+                                    .get_unchecked_mut(chan)
+                                    .as_mut()
+                                    .get_unchecked_mut(frame) = interp_lin(frac_offset, buf);""")], 'FastFixedOut Linear: the unchecked window is taken 8 cells too early INSIDE the unsafe block (the guarded monitor in front of it still sees the right expression): negative index cast to usize, undefined behaviour'),
+ 'noramp-ramps': ('C06', 'src/asynchro_fast.rs', [("""    fn update_ratio(&mut self, new_ratio: f64, ramp: bool) {
+        if !ramp {
+            self.resample_ratio = new_ratio;
+        }
+        self.target_ratio = new_ratio;
+    }
+}
+
+impl<T> Resampler<T> for FastFixedIn<T>""", """    fn update_ratio(&mut self, new_ratio: f64, _ramp: bool) {
+        self.target_ratio = new_ratio;
+    }
+}
+
+impl<T> Resampler<T> for FastFixedIn<T>""")], 'FastFixedIn: a non-ramped ratio change is ramped over the next chunk instead of taking effect at once'),
  'static-scratch': ('C18', 'src/synchro.rs', [], 'FFT unit keeps its overlap in a process-wide static instead of per instance'),
 }
 def main():
